@@ -526,6 +526,14 @@ def run(ctx):
     for b in near_utf8_bytes():
         oracle_latin1(ctx, b)
         ctx.count('near_utf8_bytes')
+    # long byte strings without an encoding: the decision utf-8 / Latin-1 concerns the WHOLE buffer — a multi-byte character across every usual block
+    # boundary (valid utf-8), and a first non-ASCII byte far behind it (Latin-1)
+    for B in (1024, 4096, 8192, 16384, 65536):
+        for k in (-1, 0, 1):
+            s_ = "select '" + 'a' * (B + k - 9) + "\u00e9\u20ac' from t; select 2"
+            oracle_forms(ctx, s_)
+            oracle_latin1(ctx, ("select '" + 'a' * (B + k + 10) + "\u00e9' from t").encode('latin-1'))
+            ctx.count('block-boundary bytes')
     lat = ["select 'é'", "select '\xe9\\n'", "\xe9 \\x", "select '\xfc' -- \\u00e9\n", "'\xe4\\\\'", "caf\xe9 \\t x", "\\N{DIGIT ONE}\xe9"]
     for s in lat:
         oracle_latin1(ctx, s.encode('latin-1'))
